@@ -62,8 +62,8 @@ def run_one(prop, base_seed, i, want_sample=False):
         "oracle_queries": W.oracle.queries - q0,
         "oracle_hits": W.oracle.hits - h0,
         "fault_free": cfg["fault_free"],
-        "tables": len({json.dumps(op.get("lit") or op.get("name")) for op in ops
-                       if op["op"] in ("set_table", "set_preset")}),
+        "model_states": sorted({_h(op.get("lit") or op.get("name") or "default") for op, rec in zip(ops, log)
+                                if op["op"] in ("set_table", "set_preset") and rec["r"][0] == "ok"}),
         "violation": None,
         "others": sorted({v.oracle for v in viols if v not in mine}),
     }
@@ -107,6 +107,11 @@ def judge(W, prop, cfg, ops, viols, summary, base_seed, i):
         drop = {op["id"] for op in rep["ops"] if op["op"] == "mutate"}
         cur = [op for op in cur if op["id"] not in drop]
         _, viols = W.run_ops(cur, cfg["passive"], second=(i % 4 == 0))
+
+
+def _h(x):
+    import hashlib
+    return hashlib.sha1(repr(x).encode()).hexdigest()[:12]
 
 
 def _short(r):
